@@ -318,7 +318,8 @@ func expOverflowExpected(v *ReqView, rec *Recorder) bool {
 			for _, a := range s.all() {
 				for _, x := range asL(p["anchoringAlternatives"]) {
 					if ra := s.alt(str(x.(M)["alternative"])); ra != nil {
-						maxD = math.Max(maxD, math.Abs(a.Vals[c.Id]-ra.Vals[c.Id])/(mx-mn))
+						// a criterion concealed with a negative scaling carries an inverted range (max < min)
+						maxD = math.Max(maxD, math.Abs(a.Vals[c.Id]-ra.Vals[c.Id])/math.Abs(mx-mn))
 					}
 				}
 			}
